@@ -479,5 +479,5 @@ func TestC15(t *testing.T) {
 	core.DFS(r, core.Check[algCase]{Name: "all-subset-pairs", Gen: genAlgExhaustive(r.N(6, 7)), Exec: execAlgCase, NoJournal: true}, 0)
 	core.Rapid(r, core.Check[algCase]{Name: "random-pairs", Gen: genAlgRandom, Exec: execAlgCase}, r.N(1500, 10000))
 	core.DFS(r, core.Check[reusedCase]{Name: "reused-element-objects", Gen: genReused, Exec: execReused, NoJournal: true}, 0)
-	core.DFS(r, core.Check[hugeCase]{Name: "huge-sizes", Gen: genHuge([]string{"Set"}, r.Ns([]int{16389, 20003}, []int{16389, 20003, 66000})), Exec: execHuge("C15"), NoJournal: true, HangLimit: 900 * time.Second}, 0)
+	core.DFS(r, core.Check[hugeCase]{Name: "huge-sizes", Gen: genHuge([]string{"Set"}, r.Ns([]int{16389, 20003}, []int{16389, 20003, 80000})), Exec: execHuge("C15"), NoJournal: true, HangLimit: 900 * time.Second}, 0)
 }
